@@ -66,12 +66,19 @@ def encb(b):
     return ','.join(str(x) for x in b) if b else '-'
 
 
-def run_real(rows, cols, encoding, chunks):
-    """chunks: list of str or bytes"""
+def run_real(rows, cols, encoding, chunks, feed='write'):
+    """chunks: list of str or bytes; feed: the entry point the pieces go through - write(), its alias process_list(), or process() one
+    character / byte at a time"""
     t = ANSI.ANSI(rows, cols, encoding=encoding)
     try:
         for ch in chunks:
-            t.write(ch)
+            if feed == 'write':
+                t.write(ch)
+            elif feed == 'process_list':
+                t.process_list(ch)
+            else:
+                for i in range(len(ch)):
+                    t.process(ch[i:i + 1])
     except Exception as e:
         return 'raises:%s' % type(e).__name__, t
     st = t.state
@@ -135,6 +142,23 @@ def run(ctx):
         else:
             b = s.encode('utf-8')
             cases.append((rows, cols, 'utf-8', cut(rng, b, k), b))
+    # bytes input in encodings whose trail bytes look like ASCII (a cut inside a character leaves a lone 7-bit byte for the next write), and
+    # ill-formed UTF-8 (a lead byte followed by ASCII or ESC): judged by chunk independence and shape only (no_model)
+    no_model = set()
+    for _ in range(400 if ctx.quick() else 8000):
+        rows, cols = rng.choice([(2, 3), (3, 4), (24, 80), (1, 5)])
+        kind = rng.choice(['shift_jis', 'gbk', 'utf8bad', 'utf8bad'])
+        if kind == 'utf8bad':
+            e = 'utf-8'
+            b = b''.join(rng.choice([b'a', b'Z', b'\xc3', b'\xe2\x82', b'\xc3\xa9', b'\xe2\x82\xac', ESC.encode() + b'[2;2H', ESC.encode(), b'\xf0\x9f', b'\xa9', b'\r\n'])
+                         for _ in range(rng.randrange(1, 10)))
+        else:
+            e = kind
+            b = ''.join(rng.choice(['a', '\u30bd', '\u4e00', '\u8868', ESC + '[1;1H', 'x', '\u2500', '\r\n', '\u80fd']) for _ in range(rng.randrange(1, 10))).encode(e, 'replace')
+        k = rng.choice([1, 2, 3, len(b)])
+        chunks = [bytes([x]) for x in b] if k == len(b) else cut(rng, b, k)
+        no_model.add(len(cases))
+        cases.append((rows, cols, e, chunks, b))
     # all cut points (single cut at every offset) of a subset of inputs
     ncut = 0
     for (rows, cols, e, chunks, whole) in list(cases[ncorpus + nex: ncorpus + nex + (150 if ctx.quick() else 2000)]):
@@ -143,13 +167,15 @@ def run(ctx):
         for p in range(1, len(whole)):
             cases.append((rows, cols, e, [whole[:p], whole[p:]], whole)); ncut += 1
     try:
-        mouts = common.run_model([model_line(r, c, e, ch) for (r, c, e, ch, w) in cases])
+        mouts = common.run_model([model_line(r, c, ('latin-1' if i in no_model else e), (['x'] if i in no_model else ch)) for i, (r, c, e, ch, w) in enumerate(cases)])
+        mouts = [None if i in no_model else m for i, m in enumerate(mouts)]
     except common.ModelUnavailable as ex:
         ctx.broken.append('model driver unavailable: ' + str(ex)[:300])
         mouts = [None] * len(cases)
     sigs = set()
     states = collections.Counter()
     oracle_fail = corr_fail = None
+    nseen = 0
     whole_cache = {}
     for (rows, cols, e, chunks, whole), mo in zip(cases, mouts):
         real, t = run_real(rows, cols, e, chunks)
@@ -166,6 +192,13 @@ def run(ctx):
                     whole_cache[key] = run_real(rows, cols, e, [whole])[0]
                 if whole_cache[key] != real:
                     msg = 'fed in %d pieces gives a different terminal than fed at once' % len(chunks)
+        nseen += 1
+        if msg is None and not real.startswith('raises') and nseen % 3 == 0:
+            # the other entry points that feed the terminal must agree with write()
+            feed = ('process_list', 'process')[(nseen // 3) % 2]
+            other = run_real(rows, cols, e, chunks, feed)[0]
+            if other != real:
+                msg = 'fed through %s() gives %s, through write() the terminal is different' % (feed, 'an exception (%s)' % other.split(':')[1] if other.startswith('raises') else 'another terminal')
         if msg and oracle_fail is None:
             oracle_fail = (rows, cols, e, chunks, msg)
         if mo is not None and mo != real and not (mo == 'raises' and real.startswith('raises')) and corr_fail is None:
